@@ -125,7 +125,8 @@ def main():
     run_probes(run, [(Ob('hash_across_processes', 'C12_hashprobe.py', 'hash_across_processes', env={}),
                       'hash_across_processes(4)'),
                      (Ob('hash_distinguishes', 'C12_hashprobe.py', 'hash_distinguishes', env={}),
-                      'hash_distinguishes(40)')])
+                      'hash_distinguishes(40)'),
+                     (Ob('generic_roundtrip', 'C12_hashprobe.py', 'generic_roundtrip', env={}), 'generic_roundtrip()')])
     for o in obs[:12]:
         run.sample(dict(obligation=o.name, harness=o.file, func=o.func, env=o.env))
     run.finish(coverage=dict(explanation=(
